@@ -2,7 +2,7 @@
 import ledger_common
 
 PROP = "C03"
-PROFILES = ["atomic"]
+PROFILES = ["atomic", "replay"]
 
 
 def run(tier, seed):
